@@ -67,21 +67,29 @@ class Files:
         if key in self.cache:
             return self.cache[key]
         gz = idx == 1 and src["kind"] == "good"
-        p = os.path.join(self.tmp, "s_" + hashlib.md5(key.encode()).hexdigest()[:10] + (".records.gz" if gz else ".records"))
+        cutgz = idx == 2 and src["kind"] == "trunc"          # the truncated second source is ALSO compressed (and its gzip trailer is gone)
+        p = os.path.join(self.tmp, "s_" + hashlib.md5(key.encode()).hexdigest()[:10] + (".records.gz" if gz else ".cut.records.gz" if cutgz else ".records"))
         if src["kind"] == "garbage":
             with open(p, "wb") as f:
                 f.write(b"this is not a record stream at all, just bytes" * 3)
         elif src["kind"] != "missing":
-            with RecordWriter(p) as w:
+            praw = p if not cutgz else p[: -len(".gz")]
+            with RecordWriter(praw) as w:
                 for r in src["recs"]:
                     w.write(mkrec(self.A, self.B, r["id"], r["d"], self.A2))
             if src["kind"] == "trunc":
-                data = open(p, "rb").read()
+                data = open(praw, "rb").read()
                 fr, dec = rc.frames(data), rc.decode_stream(data)
                 recpos = [i for i, x in enumerate(dec) if x[0] == "REC"]
                 f = fr[recpos[src["keep"]]]  # first frame that is NOT intact
+                cut = data[: f[0] + 4 + f[1] // 2]
+                if cutgz:
+                    import gzip
+
+                    os.remove(praw)
+                    cut = gzip.compress(cut, mtime=0)[:-8]
                 with open(p, "wb") as out:
-                    out.write(data[: f[0] + 4 + f[1] // 2])
+                    out.write(cut)
         self.cache[key] = p
         return p
 
